@@ -125,7 +125,10 @@ Definition TInv (s : st) : Prop := Forall Inv (reqs s).
 Lemma remove_inv id l : Forall Inv l -> Forall Inv (remove id l).
 Proof. induction 1 as [|r t Hr Ht IH]; cbn [remove]; [constructor|]. destruct (cid r =? id); [exact Ht|constructor; assumption]. Qed.
 Lemma put_inv r l : Inv r -> Forall Inv l -> Forall Inv (put r l).
-Proof. intros. unfold put. constructor; [assumption|apply remove_inv; assumption]. Qed.
+Proof.
+  intros Hr. induction 1 as [|x t Hx Ht IH]; cbn [put]; [constructor; [assumption|constructor]|].
+  destruct (cid x =? cid r); constructor; assumption.
+Qed.
 Lemma lookup_inv id l r : Forall Inv l -> lookup id l = Some r -> Inv r.
 Proof. induction 1 as [|x t Hx Ht IH]; cbn [lookup]; [discriminate|]. destruct (cid x =? id); [intros E; inversion E; subst; exact Hx|exact IH]. Qed.
 
